@@ -550,6 +550,14 @@ def call_torch(it, f, args, kwargs, node):
         if f in ("as_tensor", "from_numpy") and isinstance(x, VTens):
             r.obj.may_alias.add(x.obj)
         return r
+    if f in ("equal", "allclose") and len(args) >= 2 and isinstance(args[0], VTens) and isinstance(args[1], VTens):
+        a, b = args[0], args[1]
+        if a.term is not None and a.term == b.term and a.shape is not None and tuple(a.shape) == tuple(b.shape or ()):
+            return VConst(True)  # the same value (terms are pure values)
+        if a.shape is not None and b.shape is not None and len(a.shape) != len(b.shape) and f == "equal":
+            return VConst(False)
+        u = VNum("bool", T.app("tensor_equal", a.term, b.term)) if a.term is not None and b.term is not None else VUnknown("torch." + f, "bool")
+        return u
     if f in ("matmul", "mm", "dot", "mv", "bmm"):
         return torch_matmul(it, args, kwargs, node, op=f if f in ("dot", "mv") else "matmul")
     if f == "ger" or f == "outer":
@@ -1600,6 +1608,7 @@ def ext_method(it, objv, name, args, kwargs, node):
                 for q in ps:
                     if isinstance(q, VTens):
                         it.effect("params", q.obj, node, "optimizer.step")
+                        q.obj.version += 1
                         q.obj.term = T.app("sgd_step", q.obj.term, q.obj.grad.term if isinstance(q.obj.grad, VTens) and q.obj.grad.term is not None else T.sym("grad?")) if q.obj.term is not None else None
             return VConst(None)
         if name == "zero_grad":
